@@ -300,7 +300,7 @@ func genScenario(r *hx.Rng, name string, thorough bool) scenario {
 			sc.lines = append(sc.lines, fmt.Sprintf("pool t%d", i))
 		}
 	}
-	crashy := r.Chance(2, 3)
+	crashy := r.Chance(2, 3) && shape != 6 // the long shape must not restart: the LRU has to fill up
 	emit := func(b int) {
 		if crashy && r.Chance(1, 3) {
 			k := r.Intn(10)
@@ -331,7 +331,7 @@ func genScenario(r *hx.Rng, name string, thorough bool) scenario {
 		if r.Chance(1, 6) {
 			emit(order[r.Intn(len(order))])
 		}
-		if r.Chance(1, 12) {
+		if r.Chance(1, 12) && shape != 6 {
 			sc.lines = append(sc.lines, "restart")
 		}
 		if r.Chance(1, 30) {
